@@ -4,7 +4,7 @@
    The modelled operations (Model.v, ModelF.v) contain every conversion / wrap modulo 2^w of the C and RecInt types and
    every IEEE rounding explicitly, so "= exact residue" states that no overflow, wrap or rounding is observable. *)
 From Coq Require Import ZArith List.
-From C03 Require Import Model ModelF Params ProofsInt ProofsEuclid ProofsIntInv ProofsRU ProofsFM ProofsBI ProofsBarrett ProofsBarrettM ProofsPrecomp ProofsMisc ProofsTop.
+From C03 Require Import Model ModelF Params ProofsInt ProofsEuclid ProofsIntInv ProofsRU ProofsFM ProofsBI ProofsBarrett ProofsBarrettM ProofsPrecomp ProofsMisc ProofsBF ProofsEX ProofsTop.
 Local Open Scope Z_scope.
 
 (* integral Modular<S,C>: every instantiated (Storage_t, Compute_t) pair, every p in [minCardinality, maxCardinality] *)
@@ -75,3 +75,17 @@ Theorem C03_integer_ring_exact : forall p, ZZ_stmt p.             Proof. exact z
 Print Assumptions C03_integer_ring_exact.
 Theorem C03_recint_isUnit_iff_gcd_one : RU_isUnit_adv_stmt.        Proof. exact ru_isUnit_adv. Qed.
 Print Assumptions C03_recint_isUnit_iff_gcd_one.
+(* ModularBalanced<float|double>: constants _halfp/_mhalfp exact; reduce (any integer value), add, sub, mul, axpy, axpyin, axmy, maxpy return
+   the canonical balanced representative bal_rep p x, for every p in [minCardinality, maxCardinality] as advertised *)
+Theorem C03_balanced_floating_ring_exact_advertised : BF_adv_stmt.   Proof. exact bf_adv. Qed.
+Print Assumptions C03_balanced_floating_ring_exact_advertised.
+(* neg of the balanced rings is r = -a: exact unless p is even and a = p/2 (the known finding), and that case is refuted *)
+Theorem C03_balanced_neg_partial : forall p a, 3 <= p -> bal_canon p a -> (p mod 2 = 1 \/ a <> p / 2) -> bf_neg a = bal_rep p (- a).
+Proof. exact bf_neg_exact_partial. Qed.
+Print Assumptions C03_balanced_neg_partial.
+Theorem C03_balanced_neg_refuted : exists p a, 3 <= p /\ bal_canon p a /\ ~ bal_canon p (bf_neg a).
+Proof. exact bf_neg_refuted. Qed.
+Print Assumptions C03_balanced_neg_refuted.
+(* ModularExtended<float|double>: additive operations exact (mul/reduce: correspondence-tested) *)
+Theorem C03_extended_ring_add_sub_neg_exact_advertised : EX_adv_stmt.   Proof. exact ex_adv. Qed.
+Print Assumptions C03_extended_ring_add_sub_neg_exact_advertised.
